@@ -305,6 +305,7 @@ GEN = {
     "C17": "crop_dim (with get_dim_range)",
     "C20": "get_coord_index (the vertex-to-bin lookup of rasterize)",
     "C07": "the loop of match_geometries that turns the selected pairs into the reported (source, target, affinity) triples (the affinity matrix and the pairs chosen by the assignment step are its parameters)",
+    "C10": "convert_geometry_to_bbox and convert_time_to_sample of the crowsetta export",
     "C08": "iterate_over_valid_clips (which clips are evaluated, and with which annotation)",
     "C09": "iterate_over_valid_clips (which clips are evaluated, and with which annotation)",
 }
